@@ -43,6 +43,21 @@ func natLoop(b *ssa.BasicBlock) (header *ssa.BasicBlock, in map[*ssa.BasicBlock]
 	return nil, nil
 }
 
+// enclosingLoops: the natural loops around b, innermost first.
+func enclosingLoops(b *ssa.BasicBlock) []map[*ssa.BasicBlock]bool {
+	var out []map[*ssa.BasicBlock]bool
+	for i := 0; i < 8 && b != nil; i++ {
+		h, in := natLoop(b)
+		if h == nil {
+			break
+		}
+		out = append(out, in)
+		// continue from outside this loop: the header's immediate dominator is outside it
+		b = h.Idom()
+	}
+	return out
+}
+
 // atomFn gives the value of an atomic sub-expression (by its canonical
 // rendering under the helper substitution in force), or ok=false.
 type atomFn func(rendered string) (int64, bool)
